@@ -39,6 +39,7 @@ RULE = (
     "Non-trivial = timeline with a stop or delay at the start of / inside / at the end of a warp, or two event kinds on "
     "one beat, or overlapping/touching warps; distinct = distinct timeline"
 )
+RULE += " " + 'Added after the seeding rounds: the same source kinds, version / number spellings and absent offsets as C11 (vf.gen_timing).'
 ASSUMPTIONS = [
     "exact rational model in vf/model_timing.py",
     "boundary times are only ever the engine's own time_at floats; distinct model event times are >= 6e-4 s apart in "
